@@ -162,7 +162,7 @@ theorem decode_never_blocks (cfg : Cfg) (ls : List Label) (s : State)
 function decodes the other object with a fresh cursor) is such a system; here both are in the
 middle of their nested decodes. -/
 example :
-    let cfg : Cfg := ⟨fun _ => .direct, fun _ => false, true⟩
+    let cfg : Cfg := ⟨fun _ => .direct, true⟩
     let ls : List Label :=
       [(0, .callDecode (.ref 1) 0 []), (1, .callDecode (.ref 2) 0 []), (0, .go), (1, .go),
        (0, .callDecode (.ref 2) 0 []), (1, .callDecode (.ref 1) 0 [])]
